@@ -40,9 +40,9 @@ HARNESSES = [
        desc='blocked_range<size_t|int> split / proportional split: parts non-empty, adjacent, cover, grain kept; even split halves >= ceil(g/2)',
        bounds={'begin,end,grainsize': 'all 64-bit (int: all 32-bit with end-begin representable)', 'proportion': 'left=n-n/2,right=n/2 for every 2<=n<=2^32', 'loops': 'none'}),
   dict(name='range1d_wide', unit='range', harness='h_range1d_wide.c', defines={'NMAX': '4294967296ul'},
-       scenarios=[{'TYPE': 1, 'KIND': 0}, {'TYPE': 2, 'KIND': 0}], timeout=900,
-       desc='blocked_range<int|long> even split incl. ranges holding more elements than the signed type can count (end-begin wraps): begin < m < end, halves tile [begin,end)',
-       bounds={'begin,end': 'every begin<end of int / long (no representability assumption)', 'grainsize': 'all 64-bit >= 1, real is_divisible() assumed', 'loops': 'none'}),
+       scenarios=[{'TYPE': 1, 'KIND': 0}], timeout=900,
+       desc='blocked_range<int> even split incl. ranges holding more elements than the signed type can count (end-begin wraps): begin < m < end, halves tile [begin,end)',
+       bounds={'begin,end': 'every begin<end of int (no representability assumption); long and the proportional split of wide signed ranges FAIL on the real code (see repro_wide_signed_range.cpp) and are not registered', 'grainsize': 'all 64-bit >= 1, real is_divisible() assumed', 'loops': 'none'}),
   dict(name='rangend', unit='range', harness='h_rangend.c', defines={'NMAX': '4294967296ul', 'LIMIT': 64}, cbmc=['--unwind', '4'],
        scenarios_quick=[{'SHAPE': 2, 'KIND': 0}, {'SHAPE': 3, 'KIND': 0}, {'SHAPE': 4, 'KIND': 0}, {'SHAPE': 2, 'KIND': 0, 'TYPE': 1},
                         {'SHAPE': 2, 'KIND': 1, 'NMAX': 3}, {'SHAPE': 4, 'KIND': 1, 'NMAX': 3}],
@@ -115,6 +115,7 @@ MANIFEST = dict(
              'Tasks are atomic in the bag model (overlap of two task bodies is outside). Trusted: clang-14 IR, tools/ir2c.py (selftest differential on float/double code), cbmc.',
 )
 OUTSIDE = [
+  'signed blocked_range holding more elements than the signed type can count: only the even split of blocked_range<int> is covered (range1d_wide); blocked_range<long> even split (signed division by 2u) and the proportional split of such int ranges (size() sign-extends) misbehave on the real code: repro_wide_signed_range.cpp; whether such ranges are legal is a documentation question (end-begin overflows the Value type)',
   'parallel_for_each (feeder, forward/random-access blocks) and parallel_invoke: separate templates, not encoded',
   'affinity_partitioner task step with fully symbolic 64-bit begin/end/grainsize (4.8 M variables, no verdict in 30 min): affinity is explored with concrete begin/grain only; the range arithmetic is the blocked_range code decided by range1d and by the wide task steps of the other three partitioners',
   'whole-loop executions for auto_partitioner / affinity_partitioner (no verdict within 375 s CPU / 10 GB for 4 elements) and for more than 4 elements: covered only through the task step lemma + induction',
